@@ -146,7 +146,7 @@ def parse_vc(path, into=None):
             else:
                 raise SystemExit(f'{origin}: unknown header {kind}')
             continue
-        if line.startswith('#') and sec is None:
+        if line.startswith('# ') or line == '#' or (line.startswith('#') and sec is None):
             continue
         m = SECTION_RE.match(line) if (line and not line[0].isspace()) else None
         if m and not (isinstance(cur, tuple) and cur[0] == 'raw'):
